@@ -46,6 +46,12 @@ def cases(tier, seed):
         for rep in range(nrep):
             out.append({"kind": "extreme", "cls": "extreme:" + cls, "entry": cls, "idx": idx, "seed": seed, "maxd": 6 if tier == "quick" else 24})
             idx += 1
+    # size ladder: more than 64 / 256 / 1024 entries, sides above 8 / 16 / 32, in every memory layout of the random cases
+    for dims in ([(9, 10), (13, 5), (6, 12), (1, 70), (70, 1), (17, 17), (33, 4), (34, 33)] if tier == "quick" else
+                 [(a, b) for a in (1, 5, 9, 16, 17, 33, 64, 65) for b in (1, 6, 12, 17, 33, 70)]):
+        for cls in ("gauss", "int", "sparse"):
+            out.append({"kind": "random", "cls": "random:" + cls, "entry": cls, "idx": idx, "seed": seed, "maxd": 6, "dims": list(dims)})
+            idx += 1
     out.append({"kind": "misc", "cls": "misc", "seed": seed})
     return out
 
@@ -152,6 +158,10 @@ def _random(spec, ctx, R):
         m, k, n = (int(x) for x in rng.integers(1, maxd + 1, size=3))
         if rep == 0:
             k = m      # square A so that the adjoint is exercised
+        if "dims" in spec and rep == 1:
+            m, k = spec["dims"]
+            n = int(rng.integers(1, 4))
+            ctx.hit("size:ladder")
         A = gen.entries(rng, cls, m, k)
         B = gen.entries(rng, cls if cls not in ("huge", "tiny") else "gauss", k, n if rep else k)
         n = B.shape[1]
